@@ -6,7 +6,7 @@ From Onet Require Export Base.Corr Base.C13Bytes Tree.Ids Tree.IdsCheck Tree.Ids
 From Onet Require Export Corr.C13.
 
 (* which variant of parseServiceConfig / parseServerServiceConfig the implementation
-   is expected to be: flipped by the integrator when proposed_fixes/C18-F20.diff lands *)
+   is expected to be: the fix F20 is in /repo (commit 52bede4), hence true *)
 Definition code_fixed_F20 := true.
 
 Definition case := @gcase18 lit.
